@@ -17,9 +17,7 @@ func genC15() *rapid.Generator[SeqCase] {
 	return rapid.Custom(func(t *rapid.T) SeqCase {
 		c := SeqCase{Store: rapid.SampledFrom(gcs.Stores).Draw(t, "store")}
 		pool := c15Names
-		if vt.Thorough() {
-			pool = append(append([]string{}, c15Names...), gcs.HostileNames...)
-		}
+		pool = append(append([]string{}, c15Names...), gcs.HostileNames...) // URL-parser-hostile names (G6)
 		names := rapid.SliceOfNDistinct(rapid.SampledFrom(pool), 2, 5, func(s string) string { return s }).Draw(t, "names")
 		buckets := gcs.BucketPool[:rapid.IntRange(1, 2).Draw(t, "nbuckets")]
 		// seed some objects (one possibly empty)
